@@ -77,7 +77,7 @@ func (g *pgen) atom() *pexpr {
 // level of an expression as the grammar sees it (groups are primary)
 func level(e *pexpr) int {
 	switch e.kind {
-	case "A", "G":
+	case "A", "G", "T":
 		return 20
 	case "B":
 		for _, o := range binOps {
@@ -214,6 +214,36 @@ func (g *pgen) expr(depth int) *pexpr {
 	}
 }
 
+// constOK: operators under which a constant operand triggers no rewrite of js.go other than its replacement by
+// !0 / !1 / 0[0] / 1/0 (no truthiness folding, no ==null folding, no string merging)
+var constOK = map[string]bool{"ExpToken": true, "MulToken": true, "DivToken": true, "ModToken": true, "SubToken": true, "LtLtToken": true, "GtGtToken": true,
+	"GtGtGtToken": true, "BitOrToken": true, "BitXorToken": true, "BitAndToken": true, "LtToken": true, "LtEqToken": true, "GtToken": true, "GtEqToken": true,
+	"NegToken": true, "PosToken": true, "BitNotToken": true}
+
+// sprinkle replaces some identifier leaves by the constants true / false / undefined / Infinity where constOK allows
+func (g *pgen) sprinkle(e *pexpr, parentOK bool) {
+	for i, k := range e.kids {
+		ok := false
+		switch e.kind {
+		case "B", "P":
+			ok = constOK[e.op]
+		case "G":
+			ok = parentOK
+		case "D":
+			ok = true
+		case "I":
+			ok = i == 0
+		case "K":
+			ok = i == 0
+		}
+		if k.kind == "A" && ok && g.r.Intn(4) == 0 {
+			e.kids[i] = &pexpr{kind: "T", name: []string{"true", "false", "undefined", "Infinity"}[g.r.Intn(4)]}
+			continue
+		}
+		g.sprinkle(k, ok)
+	}
+}
+
 func (g *pgen) fit0(e *pexpr, need int) *pexpr {
 	if level(e) < need {
 		return &pexpr{kind: "G", kids: []*pexpr{e}}
@@ -230,7 +260,7 @@ func isNullish(e *pexpr) bool {
 
 func (e *pexpr) source(b *strings.Builder) {
 	switch e.kind {
-	case "A":
+	case "A", "T":
 		b.WriteString(e.name)
 	case "G":
 		b.WriteString("(")
@@ -281,6 +311,8 @@ func (e *pexpr) sexpr(b *strings.Builder) {
 	switch e.kind {
 	case "A":
 		b.WriteString("A " + e.name + " ")
+	case "T":
+		b.WriteString("T " + e.name + " ")
 	case "G":
 		b.WriteString("G ")
 	case "B", "P", "Q":
@@ -337,12 +369,19 @@ func runPrintCases(seed uint64, n int, outDir string, extra map[string]interface
 	fout, _ := os.OpenFile(filepath.Join(outDir, "cases.go.out"), os.O_APPEND|os.O_WRONLY, 0o644)
 	defer fin.Close()
 	defer fout.Close()
+	// the JS source of every case, line-aligned with cases.in: when the model and the minifier disagree on a case, the check
+	// hands that source to the node oracle to look for a behavioural difference (a failing input)
+	fsrc, _ := os.Create(filepath.Join(outDir, "cases.src"))
+	defer fsrc.Close()
 	m := minify.New()
 	skipped, done, dropped := 0, 0, 0
 	hist := map[string]int{}
 	for k := 0; k < n; k++ {
 		g := &pgen{r: r.Fork()}
 		e := g.expr(2 + r.Intn(4))
+		if r.Intn(3) == 0 {
+			g.sprinkle(e, false)
+		}
 		var src strings.Builder
 		src.WriteString("x0 = ")
 		e.source(&src)
@@ -360,6 +399,7 @@ func runPrintCases(seed uint64, n int, outDir string, extra map[string]interface
 		e.sexpr(&sx)
 		fmt.Fprintf(fin, "jsprint\t%s\n", strings.TrimSpace(sx.String()))
 		fmt.Fprintf(fout, "%s\n", strings.Join(toks[2:], " "))
+		fmt.Fprintf(fsrc, "%s\n", strings.ReplaceAll(src.String(), "\n", " "))
 		done++
 		hist[e.kind]++
 		if strings.Count(src.String(), "(") > strings.Count(out.String(), "(") {
